@@ -45,6 +45,17 @@ func (r *recBackend) rec(name string, rev uint64) {
 	r.mu.Unlock()
 }
 
+func (r *recBackend) saw(name string) bool {
+	r.mu.Lock()
+	defer r.mu.Unlock()
+	for _, c := range r.calls {
+		if c == name {
+			return true
+		}
+	}
+	return false
+}
+
 func (r *recBackend) take() ([]string, []uint64) {
 	r.mu.Lock()
 	defer r.mu.Unlock()
@@ -108,6 +119,11 @@ type recProxy struct {
 }
 
 func (p *recProxy) EtcdProxyEnabled() bool { return p.enabled }
+func (p *recProxy) watchCount() int {
+	p.mu.Lock()
+	defer p.mu.Unlock()
+	return p.watches
+}
 func (p *recProxy) Txn(ctx context.Context, txn *etcdserverpb.TxnRequest) (*etcdserverpb.TxnResponse, error) {
 	p.mu.Lock()
 	p.txns++
@@ -268,7 +284,10 @@ func (n *c18Node) issue(r c18Req, exp int64, val []byte) (err error, proxied boo
 		ws.In <- &etcdserverpb.WatchRequest{RequestUnion: &etcdserverpb.WatchRequest_CreateRequest{CreateRequest: cr}}
 		// collect until the handler ends, a cancel response arrives, the stream's eof marker arrives, or 300 ms pass
 		var rejected error
-		timeout := time.After(40 * time.Millisecond)
+		// the handler decides at its first Recv: it either returns (rejection) or acknowledges the watch; wait for
+		// that decision without a tight deadline, then give the asynchronous part a short while
+		timeout := time.After(10 * time.Second)
+		acked := false
 	loop:
 		for {
 			select {
@@ -276,6 +295,7 @@ func (n *c18Node) issue(r c18Req, exp int64, val []byte) (err error, proxied boo
 				rejected = e
 				break loop
 			case resp := <-ws.Out:
+				acked = true
 				if resp.Canceled {
 					rejected = fmt.Errorf("cancelled: %s", resp.CancelReason)
 					break loop
@@ -289,6 +309,12 @@ func (n *c18Node) issue(r c18Req, exp int64, val []byte) (err error, proxied boo
 				}
 			case <-timeout:
 				break loop
+			case <-time.After(200 * time.Microsecond):
+				// a live watch never ends by itself: it is decided once the handler has handed it to the backend
+				// or to the proxy
+				if r.Kind == "watch" && acked && (n.proxy.watchCount() > w0 || n.rec.saw("Watch")) {
+					break loop
+				}
 			}
 		}
 		ws.Close()
